@@ -243,13 +243,12 @@ func (ni *NodeInfo) removeSharedTaskResourcesPerPodGroup(task *pod_info.PodInfo,
 		ni.UsedSharedGPUsMemory[gpuGroup])
 }
 
+// isPipelinedToReleasingGpu is called after the pipelined task's memory was removed from the group's bookkeeping,
+// i.e. in the state the group had before the task was pipelined to it. The task had taken the gpu out of the
+// releasing gpus iff all the used memory of the group was releasing at that point (see the Pipelined case of
+// addSharedTaskResourcesPerPodGroup); this includes a group that was not used at all.
 func (ni *NodeInfo) isPipelinedToReleasingGpu(task *pod_info.PodInfo, gpuGroup string) bool {
-	usedMemoryBeforeRemoval := ni.UsedSharedGPUsMemory[gpuGroup] + ni.GetResourceGpuMemory(task.ResReq)
-	releasingMemoryBeforeRemoval := ni.ReleasingSharedGPUsMemory[gpuGroup] - ni.GetResourceGpuMemory(task.ResReq)
-	usedOriginally0 := ni.UsedSharedGPUsMemory[gpuGroup] == 0
-	releasingOriginally0 := ni.ReleasingSharedGPUsMemory[gpuGroup] == 0
-
-	return (usedMemoryBeforeRemoval == releasingMemoryBeforeRemoval) || (usedOriginally0 && releasingOriginally0)
+	return ni.UsedSharedGPUsMemory[gpuGroup] == ni.ReleasingSharedGPUsMemory[gpuGroup]
 }
 
 func (ni *NodeInfo) ConsolidateSharedPodInfoToDifferentGPU(ti *pod_info.PodInfo) error {
